@@ -449,7 +449,7 @@ def record_and_replay(prop, ob, db, sc, do_replay=True):
             '  unsigned char* region = (unsigned char*)mmap(0, 3 * pg, PROT_NONE, MAP_PRIVATE | MAP_ANONYMOUS, -1, 0);',
             '  static unsigned char buf[8192];',
             '  struct { const void* p; const char* w; } ptrs[] = {{nullptr, "a null pointer"}, {(const void*)0x1008, "a misaligned invalid address"}, {region + pg, "the start of an inaccessible page"},',
-            '     {region + pg + 8, "an offset inside an inaccessible page"}, {buf + 64 - ((unsigned long long)buf %% 64), "a cache-line aligned valid buffer"}, {buf + 8, "a valid buffer"}};',
+            '     {region + pg + 8, "an offset inside an inaccessible page"}, {buf + 64 - ((unsigned long long)buf % 64), "a cache-line aligned valid buffer"}, {buf + 8, "a valid buffer"}};',
             '  const unsigned long long ns[] = {%dull, 0ull, 1ull, 63ull, 64ull, 65ull, 256ull};' % n_value,
             '  for (auto& pp : ptrs) for (unsigned long long n : ns) { what = pp.w; cur_n = n; alarm(5); avel::%s%s((%s)pp.p, (std::size_t)n); alarm(0); }' % (pf['name'], tpl, pt),
             '  std::printf("REPLAY: real code satisfies the contract on this input\\n"); return 0;', '}']) + '\n'
